@@ -58,8 +58,12 @@ class Ctx:
         module is run on a child context; the instances and violations of the listed rule ids are re-recorded under
         `as_rule` (e.g. "R1.8") with the original id kept in the instance text / key.  Known findings of the *other*
         property are not inherited: a finding is listed per property."""
+        stack = getattr(self, "_incl_stack", [])
+        if module.__name__ in stack:
+            return 0          # mutual inclusion (A decides a rule of B and B one of A): cut the cycle
         child = Ctx(self.pid, self.tier, self.F, self.info, self.level)
         child.known = {}
+        child._incl_stack = stack + [module.__name__]
         module.run(child)
         n = 0
         for r, w, i, nt in child.instances:
